@@ -407,3 +407,18 @@ contract(module="coco.cm3toppm", qualname="convert", tag="C19",
                   dict(id="complete", post="n == 3*320*(192*pages)",
                        known=[dict(finding="KF-C19-CM3-line-count", when="tl != 192*pages")])],
          raises=[dict(id="loud", exc="*", allowed="True")])
+
+MAX_PX = "forall(0, {K}, lambda t: max_px(out, 24*t, inp[dstart + t], arte))"
+contract(module="coco.maxtoppm", qualname="convert", tag="C16",
+         params=MAX_PARAMS, requires=MAX_REQ, ghost_entry=MAX_GHOST_ENTRY,
+         # well-formed: the width is a whole number of bytes and the file holds rows * (cols/8) image bytes after its header
+         loops={
+             0: dict(ghost_before="dstart = pos\ncw = cols // 8\nassume(cols % 8 == 0)\nassume(rows >= 0)\nassume(L >= dstart + cw*rows)",
+                     ghost_vars=["rs"], ghost_body_start="rs = pos",
+                     lemmas=["cw*(jj+1) == cw*jj + cw", "cw >= 0", "implies(jj >= 0, cw*jj >= 0)", "implies(jj < rows, cw*jj + cw <= cw*rows)"],
+                     inv=["pos == dstart + cw*jj", "n == 24*(cw*jj)", MAX_PX.format(K="cw*jj")]),
+             1: dict(counter="bi", inv=["rs == dstart + cw*jj", "len(row) == cw", "pos == rs + cw", "n == 24*(cw*jj + bi)", MAX_PX.format(K="cw*jj + bi")]),
+         },
+         ensures=[dict(id="pixels", when="result == True", post=MAX_PX.format(K="cw*rows")),
+                  dict(id="length", when="result == True", post="n == 24*(cw*rows)")],
+         raises=[dict(id="header-too-short", exc="IndexError", allowed="L < base + 5")])
